@@ -508,6 +508,19 @@ def run(tier, seed):
             drv.case("L3", "disparity.wta", {"disparity_method": "wta", "invalid_disparity": value}, ACC, "core",
                      "string-" + value, focus="invalid_disparity", part="strings")
 
+    # Divergences between the code and the user-guide TABLES for parameters the property statement does not name
+    # (stale guide: vertical_depth, quantile_regularization, ambiguity_*, the "mc_cnn" spelling), and mutation of the
+    # argument of the class-level API (the property speaks of checking a user configuration: check_conf does not mutate
+    # it), are outside the statement: they are reported as observations, never as violations.
+    _outside = ("C05.docdefault.", "C05.docdomain.", "C05.nomutate.class.")
+    observations = [v for v in rec.violations if v["clause"].startswith(_outside)]
+    rec.violations = [v for v in rec.violations if not v["clause"].startswith(_outside)]
+    _res = _result(rec, tier, n_combo)
+    _res["observations"] = [{"clause": v["clause"], "message": v["message"]} for v in observations]
+    return _res
+
+
+def _result(rec, tier, n_combo):
     return rec.result(
         bound="17 built-in method classes of the 8 built-in step kinds; per parameter the grid {domain edges +-1, a far "
               "value, wrong types from int/float/str/bool/None/list}; every single value at L1 (class), L2 "
